@@ -205,6 +205,24 @@ def check_case(case) -> Outcome:
                 b = dense(r2[path]).reshape(-1, ncol) if ncol else np.zeros((r2[path].shape[0], 0))
                 if a.shape != b.shape or not np.allclose(a, b, rtol=1e-12, atol=1e-12, equal_nan=True):
                     out.fail("specs-regenerate-values", f"{f!r}: part {path}: {a.shape} vs {b.shape}", **feat)
+        # the same with an option override (another output type): still one joint build, parts stay row-aligned
+        other_out = {"pandas": "numpy", "numpy": "sparse", "sparse": "pandas"}[output]
+        try:
+            regen2 = specs.get_model_matrix(df, drop_rows=None if caller is None else set(caller), context={}, output=other_out)
+        except Exception as e:
+            out.fail("specs-regenerate-override-raises", f"{f!r} output={other_out}: {type(e).__name__}: {str(e)[:150]}", **feat)
+            return out
+        if shape_of(regen2) != shape_of(res):
+            out.fail("specs-regenerate-shape", f"with override: {shape_of(regen2)}", **feat)
+        else:
+            r3 = dict(leaves_of(regen2))
+            for path, mm in rl.items():
+                ncol = len(mm.model_spec.column_names)
+                a = dense(mm).reshape(-1, ncol) if ncol else np.zeros((mm.shape[0], 0))
+                b_ = dense(r3[path])
+                b = b_.reshape(-1, ncol) if ncol and b_.size % ncol == 0 else (np.zeros((r3[path].shape[0], 0)) if not ncol else b_)
+                if a.shape != b.shape or not np.allclose(a, b, rtol=1e-12, atol=1e-12, equal_nan=True):
+                    out.fail("specs-regenerate-override-values", f"{f!r}: part {path} rebuilt with output={other_out}: {a.shape} vs {b.shape}", **feat)
     return out
 
 
